@@ -27,6 +27,19 @@ Rules applied to copied text (all line preserving, all counted in the report):
   R4  `use` lines naming external crates are dropped (rand_core::RngCore is a local trait).
   R5  `external_body`: body replaced by `{ unimplemented!() }` and `#[verifier::external_body]` added.
   R7  `for x in a..b {` whose body contains `continue` is desugared into a while loop.
+  With `shims` on a //@fn (Verus has no semantics for floats and no spec for formatting):
+  R10 `format!(..)`, `"lit".to_string()`, `ident.to_string()` -> `crate::shim::fmt_msg()` (an opaque String;
+      message texts are not part of any contract).
+  R11 `x += e;` for a local declared `let mut x: f32|f64` -> `x = crate::shim::f_add(x, e);`
+  R12 `path <op> <float literal or float local>` (op in <=,<,>=,>) -> `crate::shim::f_le|f_lt|f_ge|f_gt(path, literal)`
+  R14 `(<lit>..=<lit>).contains(&e)` -> `crate::shim::f_in_incl(<lit>, <lit>, e)`
+  R15 `rng.gen_range(<lit>..<lit>)` -> `crate::shim::gen_range_f(rng, <lit>, <lit>)`
+      (R12 also applies when one side is a float local: a local declared f32/f64 or initialised with a
+      float literal or with such a gen_range call)
+      the shims are external_body functions whose bodies are the replaced expression and whose contracts
+      say "the result is a function of the operands" (uninterpreted fle/flt/fge/fgt/fadd/fin).
+  R13 `for (i, x) in E.iter().enumerate() {` -> `let mut r13_i = 0; let r13_n = E.len(); while r13_i < r13_n
+      { let i = r13_i; let x = &E[r13_i]; r13_i = r13_i + 1;` (definition of slice::Iter + Enumerate).
   I4  contract text is inserted between signature and body / after loop headers; `ret=` names
       the return value `-> (r: T)`.
 Everything else is byte-identical to /repo.  The report lists, per function, source file:line
@@ -275,7 +288,8 @@ class Extractor:
                        "proof_after": []}
                 fns.append(cur)
                 sub = cur["contract"]
-            elif s.startswith("//@loop_pre ") or s.startswith("//@loop_post ") or s.startswith("//@loop_end "):
+            elif s.startswith("//@loop_pre ") or s.startswith("//@loop_post ") or s.startswith("//@loop_end ") \
+                    or s.startswith("//@loop_begin "):
                 # ghost lines placed immediately before / after loop N, or at the end of its body
                 key = s.split()[0][3:]
                 sub = cur.setdefault(key, {}).setdefault(int(s.split()[1]), [])
@@ -449,9 +463,13 @@ class Extractor:
             tgt[hit] = tgt.get(hit, []) + pa["text"]
         drop_tail = fo.get("drop_tail")
         tail_dropped = False
+        ovr = self.shim_overrides(src, p_open, p_close, rec, name) if fo.get("shims") else {}
+        for k in ovr:
+            if k in loop_open_ln or k == open_ln:
+                raise LostAnchor("shim rule would rewrite a loop header / signature line in fn %s" % name)
         k = open_ln
         while k <= last:
-            l = src.lines[k]
+            l = ovr.get(k, src.lines[k])
             if k == open_ln:
                 l = " " * (p_open - src.starts[k]) + l[p_open - src.starts[k]:]
             if k in pb_lines:
@@ -468,6 +486,7 @@ class Extractor:
                 self.out.emit_src(src, k, "        // (R3 dropped) " + src.lines[k].strip())
                 k += 1
                 continue
+            begin_n = None
             if k in loop_open_ln:
                 n, ks, bo = loop_open_ln[k]
                 for pl in f.get("loop_pre", {}).get(n, []):
@@ -479,6 +498,7 @@ class Extractor:
                 body_code = src.code[bo:lc]
                 hdr = src.src[ks:bo]
                 mfor = re.match(r"for\s+(\w+)\s+in\s+(.+?)\.\.(.+?)\s*$", hdr, re.S)
+                menum = re.match(r"for\s*\(\s*(\w+)\s*,\s*(\w+)\s*\)\s+in\s+(.+?)\.iter\(\)\.enumerate\(\)\s*$", hdr, re.S)
                 if mfor and re.search(r"\bcontinue\b", body_code):
                     # R7: desugar `for x in a..b { .. continue .. }`
                     if src.line_of(ks) != k:
@@ -505,6 +525,28 @@ class Extractor:
                     for il in (decr or ["%s    decreases r7_n - r7_i" % ind]):
                         self.out.emit(il)
                     self.out.emit_src(src, k, "%s{ let %s = r7_i; r7_i = r7_i + 1;" % (ind, x))
+                    begin_n = n
+                elif menum:
+                    # R13: desugar `for (i, x) in E.iter().enumerate() {`
+                    if src.line_of(ks) != k:
+                        raise LostAnchor("R13: multi-line for header in fn %s" % name)
+                    ind = l[:len(l) - len(l.lstrip())]
+                    xi, xv, ex = menum.group(1), menum.group(2), menum.group(3).strip()
+                    self.hit("R13.for_enumerate")
+                    rec["edits"].append("R13: `%s` desugared to while" % hdr.strip())
+                    self.out.emit_src(src, k, "%slet mut r13_i: usize = 0; let r13_n: usize = %s.len();" % (ind, ex))
+                    self.out.emit_src(src, k, "%swhile r13_i < r13_n" % ind)
+                    inv = [re.sub(r"\b%s\b" % re.escape(xi), "r13_i", il) for il in inv if il.strip()]
+                    body = [il for il in inv if not il.strip().startswith("invariant")
+                            and not il.strip().startswith("decreases")]
+                    self.out.emit("%s    invariant" % ind)
+                    self.out.emit("%s        r13_i <= r13_n," % ind)
+                    for il in body:
+                        self.out.emit(il if il.rstrip().endswith(",") else il.rstrip() + ",")
+                        self.hit("I4.contract_lines")
+                    self.out.emit("%s    decreases r13_n - r13_i" % ind)
+                    self.out.emit_src(src, k, "%s{ let %s = r13_i; let %s = &%s[r13_i]; r13_i = r13_i + 1;" % (ind, xi, xv, ex))
+                    begin_n = n
                 else:
                     col = bo - src.starts[k]
                     hdr_txt = l[:col].rstrip()
@@ -521,9 +563,18 @@ class Extractor:
                         if il.strip():
                             self.out.emit(il)
                             self.hit("I4.contract_lines")
+                    if l[col:].strip() != "{" and f.get("loop_begin", {}).get(n):
+                        raise LostAnchor("loop_begin: loop %d of fn %s does not open at the end of its header line" % (n, name))
                     self.out.emit_src(src, k, " " * col + l[col:])
+                    begin_n = n
             else:
                 self.out.emit_src(src, k, l if k == open_ln else self.rewrite_line(l, copts))
+            if begin_n is not None:
+                # I4: ghost lines placed at the very beginning of the loop body
+                for pl in f.get("loop_begin", {}).get(begin_n, []):
+                    if pl.strip():
+                        self.out.emit(pl)
+                        self.hit("I4.proof_lines")
             if k == last and f.get("proof_end"):
                 # I4: ghost proof block placed immediately before the closing brace of the body
                 self.out.lines.pop(); self.out.origin.pop()
@@ -558,6 +609,86 @@ class Extractor:
             k += 1
         if drop_tail and not tail_dropped:
             raise LostAnchor("drop_tail %r not found in fn %s" % (drop_tail, name))
+
+    def shim_overrides(self, src, p_open, p_close, rec, name):
+        """rules R10, R11, R12, R14 on the body text; returns {line index: new text}.  Edits are
+        computed on code-only text (comments and literals masked) and never change the line count."""
+        code, text = src.code, src.src
+        edits = []   # (start, end, replacement, rule)
+
+        def overlaps(a, b):
+            return any(a < e and s < b for s, e, _, _ in edits)
+
+        for m in re.finditer(r"\bformat!\s*\(", code[p_open:p_close]):
+            po = p_open + m.end() - 1
+            pc = match_close(code, po, "(", ")")
+            nl = text.count("\n", p_open + m.start(), pc + 1)
+            edits.append((p_open + m.start(), pc + 1, "crate::shim::fmt_msg(" + "\n" * nl + ")", "R10"))
+        for m in re.finditer(r'"(?:[^"\\\n]|\\.)*"\.to_string\(\)|\b[a-z_]\w*\.to_string\(\)', text[p_open:p_close]):
+            a, b = p_open + m.start(), p_open + m.end()
+            dot = text.rfind(".to_string", a, b)
+            if code[dot:b] != text[dot:b] or overlaps(a, b):
+                continue   # inside a comment / string / an already replaced format!
+            edits.append((a, b, "crate::shim::fmt_msg()", "R10"))
+        for m in re.finditer(r"\(\s*(\d+\.\d+)\s*\.\.=\s*(\d+\.\d+)\s*\)\s*\.contains\s*\(\s*&", code[p_open:p_close]):
+            po = p_open + m.end() - 2
+            while code[po] != "(":
+                po -= 1
+            pc = match_close(code, po, "(", ")")
+            arg = text[p_open + m.end():pc]
+            if "\n" in arg:
+                raise LostAnchor("R14: multi-line contains() argument in fn %s" % name)
+            edits.append((p_open + m.start(), pc + 1,
+                          "crate::shim::f_in_incl(%s, %s, %s)" % (m.group(1), m.group(2), arg.strip()), "R14"))
+        # R15: rand's `rng.gen_range(<lit>..<lit>)` -> crate::shim::gen_range_f(rng, <lit>, <lit>)
+        for m in re.finditer(r"\b(\w+)\.gen_range\(\s*(\d+\.\d+)\s*\.\.(=?)\s*(\d+\.\d+)\s*\)", code[p_open:p_close]):
+            edits.append((p_open + m.start(), p_open + m.end(),
+                          "crate::shim::gen_range%s_f(%s, %s, %s)" % ("_incl" if m.group(3) else "", m.group(1), m.group(2), m.group(4)), "R15"))
+        # float locals, recognised lexically: declared with a float type, or initialised with a float
+        # literal or with gen_range over float literals
+        fl = set(re.findall(r"\blet\s+(?:mut\s+)?(\w+)\s*:\s*f(?:32|64)\b", code[p_open:p_close]))
+        fl |= set(re.findall(r"\blet\s+(?:mut\s+)?(\w+)\s*=\s*\d+\.\d+\s*;", code[p_open:p_close]))
+        fl |= set(re.findall(r"\blet\s+(?:mut\s+)?(\w+)\s*=\s*\w+\.gen_range\(\s*\d+\.\d+\s*\.\.", code[p_open:p_close]))
+        for v in sorted(fl):
+            for m in re.finditer(r"(?m)^(\s*)%s\s*\+=\s*([^;\n]+);" % re.escape(v), code[p_open:p_close]):
+                a, b = p_open + m.start() + len(m.group(1)), p_open + m.end()
+                e = text[p_open + m.start(2):p_open + m.end(2)]
+                edits.append((a, b, "%s = crate::shim::f_add(%s, %s);" % (v, v, e.strip()), "R11"))
+        ops = {"<=": "f_le", "<": "f_lt", ">=": "f_ge", ">": "f_gt"}
+        path = r"(?:[A-Za-z_]\w*)(?:\.\w+)*"
+        lit = r"\d+\.\d+"
+        for m in re.finditer(r"(?<![\w.])(%s|%s)\s*(<=|>=|<|>)\s*(%s|%s)(?![\w.(])" % (path, lit, path, lit), code[p_open:p_close]):
+            l_, r_ = m.group(1), m.group(3)
+            is_f = lambda x: re.fullmatch(lit, x) is not None or x in fl
+            if not (is_f(l_) or is_f(r_)):
+                continue
+            a, b = p_open + m.start(), p_open + m.end()
+            if overlaps(a, b):
+                continue
+            edits.append((a, b, "crate::shim::%s(%s, %s)" % (ops[m.group(2)], l_, r_), "R12"))
+        if not edits:
+            return {}
+        edits.sort()
+        for (s1, e1, _, _), (s2, _, _, _) in zip(edits, edits[1:]):
+            if s2 < e1:
+                raise LostAnchor("shim rules overlap in fn %s" % name)
+        first_ln = src.line_of(p_open)
+        lo = src.starts[first_ln]
+        last_ln = src.line_of(p_close)
+        hi = src.starts[last_ln + 1] - 1
+        out, pos = [], lo
+        for s1, e1, rep, rule in edits:
+            out.append(text[pos:s1])
+            out.append(rep)
+            pos = e1
+            self.hit(rule + ".shim")
+            rec["edits"].append("%s: `%s` -> `%s`" % (rule, " ".join(text[s1:e1].split())[:80], rep.replace("\n", "")))
+        out.append(text[pos:hi])
+        new_lines = "".join(out).split("\n")
+        old_lines = src.lines[first_ln:last_ln + 1]
+        if len(new_lines) != len(old_lines):
+            raise LostAnchor("shim rules changed the line count of fn %s" % name)
+        return {first_ln + i: nl for i, (nl, ol) in enumerate(zip(new_lines, old_lines)) if nl != ol}
 
     def code_line(self, src, k):
         return src.code[src.starts[k]:src.starts[k + 1] - 1] if k + 1 < len(src.starts) else ""
